@@ -17,12 +17,12 @@ Proof. intros H. destruct e; try reflexivity. exfalso; eapply H; reflexivity. Qe
 
 Section Inv.
   Variable L R : Type.
-  Variable l_pre : L -> N -> L.
+  Variable l_pre : L -> bmeta -> L.
   Variable l_check : L -> tx -> bool.
   Variable l_exec : L -> tx -> xres L.
-  Variable l_post : L -> N -> L * R.
+  Variable l_post : L -> N -> bmeta -> L * R.
   Variable commit_of : L -> list tx -> list N.
-  Variable uh_at : N -> N.
+  Variable uh_at : bmeta -> N.
 
   Notation State := (state L).
   Notation App := (app L R).
@@ -50,8 +50,8 @@ Section Inv.
     exists sf ex,
       Process_loop (Pre_exec c (b_meta B)) GROUP_TOP (d_txs (b_data B)) = (sf, inl ex) /\
       list_eqb N.eqb (d_commit (b_data B)) (commit_of (s_l sf) (d_txs (b_data B))) = true /\
-      w_s w = {| s_l := fst (l_post (s_l sf) (b_meta B)); s_o := s_o sf |} /\
-      w_result w = Some (ex, snd (l_post (s_l sf) (b_meta B))).
+      w_s w = {| s_l := fst (l_post (s_l sf) (b_hash B) (b_meta B)); s_o := s_o sf |} /\
+      w_result w = Some (ex, snd (l_post (s_l sf) (b_hash B) (b_meta B))).
 
   (** the working state and the proposal are what PrepareProposal makes of a fresh mempool *)
   Definition PreparedBy (w : wstate L R) (p : proposal) : Prop :=
@@ -179,7 +179,7 @@ Section Inv.
     cbn [with_working with_exec a_exec a_working a_committed a_staged set_executed_block fresh
          w_s w_executed w_result s_l s_o init_app].
     destruct (process_finalize _ _ _ _ _ _ _ EP) as [_ Hmap]. rewrite Hmap, EM.
-    destruct (l_post (s_l sf) (b_meta b)) as [l' r] eqn:ELP.
+    destruct (l_post (s_l sf) (b_hash b) (b_meta b)) as [l' r] eqn:ELP.
     cbn [fst with_exec with_working a_committed a_staged a_exec a_working].
     split; [reflexivity|]. split; [reflexivity|].
     cbn [with_exec with_working a_committed a_staged a_exec a_working].
@@ -206,7 +206,7 @@ Section Inv.
     cbn [with_exec a_working a_exec]. rewrite Hw. cbn [w_executed].
     unfold post_exec. cbn [with_exec a_working a_exec set_executed_block]. rewrite Hw.
     cbn [w_s w_executed w_result].
-    destruct (l_post (s_l sf) (b_meta b)) as [l' r] eqn:ELP.
+    destruct (l_post (s_l sf) (b_hash b) (b_meta b)) as [l' r] eqn:ELP.
     assert (EM : list_eqb N.eqb (d_commit (b_data b)) (commit_of (s_l sf) (map fst inc)) = true)
       by (rewrite Hd; cbn [d_commit]; apply listN_eqb_refl).
     rewrite EM. cbn [fst].
